@@ -85,6 +85,80 @@ func TestGovcReplayLedger(t *testing.T) {
 			fmt.Println("REPLAY-CONFIRMED GetBlockHash(h) is not the hash of the block stored at height h")
 			return
 		}
+	case "deleted-key-between-flush-and-commit":
+		// block 1 commits k=v1; block 2 deletes k and is flushed but NOT committed yet; block 3 reads k: the account
+		// cache is the only layer that knows about the deletion
+		l.SetState(a, []byte("k"), []byte("v1"), nil)
+		l.Finalise(true)
+		accounts, r1 := l.FlushDirtyData()
+		if err := l.Commit(1, accounts, r1); err != nil {
+			fmt.Println("REPLAY-NOT-CONFIRMED commit failed:", err)
+			return
+		}
+		l.SetState(a, []byte("k"), nil, nil)
+		l.Finalise(true)
+		l.FlushDirtyData()
+		ok, v := l.GetState(a, []byte("k"))
+		fmt.Printf("replay: key deleted in a flushed, not yet committed block reads back as ok=%v value=%q (expected absent)\n", ok, v)
+		if ok || v != nil {
+			fmt.Println("REPLAY-CONFIRMED a deleted key is answered from the database between FlushDirtyData and Commit")
+			return
+		}
+	case "drained-account-after-reopen":
+		// an account with a stored record is drained to zero, flushed and committed; a fresh cache must read zero
+		l.SetBalance(a, big.NewInt(5))
+		l.Finalise(true)
+		accounts, r1 := l.FlushDirtyData()
+		if err := l.Commit(1, accounts, r1); err != nil {
+			fmt.Println("REPLAY-NOT-CONFIRMED commit failed:", err)
+			return
+		}
+		l.SetBalance(a, big.NewInt(0))
+		l.Finalise(true)
+		accounts, r2 := l.FlushDirtyData()
+		if err := l.Commit(2, accounts, r2); err != nil {
+			fmt.Println("REPLAY-NOT-CONFIRMED commit failed:", err)
+			return
+		}
+		l.accountCache.clear()
+		l.Clear()
+		got := l.GetBalance(a)
+		fmt.Printf("replay: balance of the drained account read past the cache = %v (expected 0)\n", got)
+		if got.Sign() != 0 {
+			fmt.Println("REPLAY-CONFIRMED the record of a changed account did not reach the database")
+			return
+		}
+	case "cached-code-after-rollback":
+		// code A at height 1, overwritten by code B at height 2, rollback to 1, a later block touches the balance only:
+		// the code read afterwards must be A
+		codeA, codeB := []byte("code-A-code-A-code-A"), []byte("code-B-code-B-code-B-code-B")
+		for h, code := range [][]byte{codeA, codeB} {
+			l.SetCode(a, code)
+			l.Finalise(true)
+			accounts, r := l.FlushDirtyData()
+			if err := l.Commit(uint64(h+1), accounts, r); err != nil {
+				fmt.Println("REPLAY-NOT-CONFIRMED commit failed:", err)
+				return
+			}
+		}
+		if err := l.RollbackState(1); err != nil {
+			fmt.Println("REPLAY-NOT-CONFIRMED rollback failed:", err)
+			return
+		}
+		l.SetBalance(a, big.NewInt(7))
+		l.Finalise(true)
+		accounts, r := l.FlushDirtyData()
+		if err := l.Commit(2, accounts, r); err != nil {
+			fmt.Println("REPLAY-NOT-CONFIRMED commit failed:", err)
+			return
+		}
+		l.Clear()
+		got := l.GetCode(a)
+		fmt.Printf("replay: code read after rollback to 1 and a continuation = %q (expected %q)\n", got, codeA)
+		if string(got) != string(codeA) {
+			fmt.Println("REPLAY-CONFIRMED a read after an accepted rollback is served from a rolled-back block (cache not emptied)")
+			return
+		}
 	default:
 		fmt.Println("REPLAY-NOT-CONFIRMED unknown scenario", in.Values["scenario"])
 		return
